@@ -286,7 +286,8 @@ where
                 //    ValueEntries.
                 // 2. This method will set the dirty flag to prevent this new
                 //    ValueEntry from being evicted by an expiration policy.
-                // 3. This method will update the policy_weight with the new weight.
+                // 3. The policy_weight will be updated with the new weight when
+                //    the write op is applied.
                 let old_weight = entry.policy_weight();
                 *entry = self.new_value_entry_from(value.clone(), ts, weight, entry);
                 update_op = Some(WriteOp::Upsert {
@@ -340,7 +341,10 @@ where
         info.set_dirty(true);
         info.set_last_accessed(timestamp);
         info.set_last_modified(timestamp);
-        info.set_policy_weight(policy_weight);
+        // NOTE: The policy weight kept in the EntryInfo is the weight that has been
+        // accounted in the eviction counters. It is updated when the write op for
+        // this update is applied, not here.
+        let _ = policy_weight;
         TrioArc::new(ValueEntry::new(value, info))
     }
 
@@ -823,8 +827,11 @@ where
 
         if entry.is_admitted() {
             // The entry has been already admitted, so treat this as an update.
-            counters.saturating_sub(0, old_weight);
+            // Replace the weight that is currently accounted for this entry.
+            let _ = old_weight;
+            counters.saturating_sub(0, entry.policy_weight());
             counters.saturating_add(0, new_weight);
+            entry.entry_info().set_policy_weight(new_weight);
             deqs.move_to_back_ao(&entry);
             deqs.move_to_back_wo(&entry);
             return;
@@ -1002,6 +1009,7 @@ where
     ) {
         let key = Arc::clone(&kh.key);
         counters.saturating_add(1, policy_weight);
+        entry.entry_info().set_policy_weight(policy_weight);
         deqs.push_back_ao(
             CacheRegion::MainProbation,
             KeyHashDate::new(kh, entry.entry_info()),
